@@ -4,6 +4,7 @@
    about it.  MAXLEN = usize::MAX / 8 is the largest length data-encoding's
    decode_len accepts without its own assertion failing. *)
 From V Require Import Lib.Base Lib.MachineInt Lib.BaseN Lib.Hex Lib.Leb128 Model.C02 Proofs.C02.
+From Coq Require Import Sorting.Sorted.
 Import C02.
 Open Scope N_scope.
 
@@ -125,14 +126,49 @@ Theorem C02_custom_parse_total : forall s,
 Proof. exact custom_parse_total. Qed.
 Print Assumptions C02_custom_parse_total.
 
-(* ---- the monitor used on implementation outputs holds of the model, for every input of
-   every key / signature / CustomAddr operation (the full statement
-     forall i, known i = 0 -> monitor i (model i) = true
-   additionally covers the two EndpointAddr operations; for those only the witnesses below
-   are proved, see notes) ---- *)
-Theorem C02_model_satisfies_monitor_partial : forall i, is_ea i = false -> monitor i (model i) = true.
-Proof. exact monitor_model_non_ea. Qed.
-Print Assumptions C02_model_satisfies_monitor_partial.
+(* ---- EndpointAddr through postcard ---- *)
+(* Every well-formed EndpointAddr survives postcard: the id is a valid key (32 bytes, a curve
+   point), every address is well-formed (wf_taddr: a relay URL that url::Url re-serialises to
+   itself, an IP address of the right width with a u16 port, a CustomAddr in the representation
+   copy_from_slice builds; lengths fit a usize), every SocketAddrV6 has flow info 0 and scope
+   id 0 (v6_plain), and the addresses are listed as BTreeSet iteration gives them: strictly
+   ascending in the derived order, hence without duplicates.  Decoding the encoding (followed by
+   any further bytes) yields the same value and leaves exactly those bytes. *)
+Theorem C02_endpoint_addr_postcard_roundtrip : forall is_point url_parse e rest,
+  valid_key is_point (eid e) ->
+  Forall (fun a => wf_taddr url_parse a = true /\ v6_plain a = true) (eaddrs e) ->
+  StronglySorted (fun a b => taddr_cmp a b = Lt) (eaddrs e) ->
+  len (eaddrs e) <= U64_MAX ->
+  exists b, ea_enc e = Ok b /\ ea_dec is_point url_parse (b ++ rest) = Ok (e, rest).
+Proof. exact (fun ip up e rest K F S L => endpoint_addr_postcard_roundtrip ip up e rest (conj K (conj F (conj S L)))). Qed.
+Print Assumptions C02_endpoint_addr_postcard_roundtrip.
+
+(* the boolean side condition used by the monitor is that strict sortedness *)
+Theorem C02_ascending_is_strictly_sorted : forall l,
+  ascending [] l = true <-> StronglySorted (fun a b => taddr_cmp a b = Lt) l.
+Proof. exact ascending_sorted. Qed.
+Print Assumptions C02_ascending_is_strictly_sorted.
+
+(* the decoder never panics, on any bytes, provided url::Url's parser does not *)
+Theorem C02_endpoint_addr_decode_total : forall is_point url_parse b,
+  (forall s, url_parse s <> Panic) -> ea_dec is_point url_parse b <> Panic.
+Proof. exact endpoint_addr_decode_total. Qed.
+Print Assumptions C02_endpoint_addr_decode_total.
+
+(* what the decoder accepts has a valid key (the first 32 bytes, a curve point) and can be
+   serialised again (no CustomAddr representation on which as_bytes would panic) *)
+Theorem C02_endpoint_addr_decode_accepts : forall is_point url_parse l e r,
+  ea_dec is_point url_parse l = Ok (e, r) ->
+  eid e = firstn 32 l /\ length (eid e) = 32%nat /\ is_point (eid e) = true /\ exists b, ea_enc e = Ok b.
+Proof. exact ea_dec_ok. Qed.
+Print Assumptions C02_endpoint_addr_decode_accepts.
+
+(* ---- the monitor used on implementation outputs holds of the model, for every input of all
+   14 operations outside known-finding class 1 (an address list containing a SocketAddrV6 with
+   non-zero scope id or flow info) ---- *)
+Theorem C02_model_satisfies_monitor : forall i, known i = 0 -> monitor i (model i) = true.
+Proof. exact monitor_model. Qed.
+Print Assumptions C02_model_satisfies_monitor.
 
 (* ---- EndpointAddr through postcard: refuted for SocketAddrV6 with scope id / flow info ---- *)
 Theorem C02_endpoint_addr_postcard_refuted : exists i, known i = 1 /\ monitor i (model i) = false /\
